@@ -477,7 +477,7 @@ example : E2E.TextOk (E2E.answerDs "ds".toList "a".toList ["m0".toList] .int16 [
     have l1 : Dds.lookup Gen.NUMPY_TO_DAP2_TYPEMAP (Dds.dtypeChar ['h']) = some "Int16".toList := by decide
     have i2 : intText 2 = ['2'] := by simp [intText, natDigits, digitChar]
     simp [E2E.answerDs, E2E.ddsBase, E2E.npChar, Dds.printDs, Dds.printL, Dds.printT, Dds.printBase, l1,
-      Dds.shapeText, Dds.dimText, Dds.indent, Dds.closeText, i2]
+      Dds.shapeText, Dds.dimText, Dds.indent, Dds.closeText, Dds.effShape, i2]
   rw [hp] at h
   have := List.append_cancel_right (Except.ok.inj h)
   subst this
